@@ -30,6 +30,9 @@ fixed = [
  ("C08", "23b1b66", "structure_function_vk(0, r0, L0) and stf_vonKarman(0, L0) returned NaN instead of 0"),
 ]
 open_ = [
+ {"property": "C20", "mechanism": "global_state_changed:optimal_grouping:numpy_global_rng",
+  "what": "optimal_grouping draws its random restarts from, and so advances, NumPy's global random generator (hidden global state read and written by a library call)",
+  "why_not_repaired": "repair needs an API change (a seed / Generator parameter); C18 checks that its guarantees hold for arbitrary global states"},
  {"property": "C15", "mechanism": "centre_of_gravity:stack_vs_frame:thresholded",
   "what": "centre_of_gravity with a threshold: the 2-D path subtracts the threshold, the N-D (stack) path zeroes below it, so a stack differs from frame-by-frame processing (e.g. 0.07-0.17 px)",
   "why_not_repaired": "which of the two semantics is intended is a maintainer decision (docstring says 'zero', correlation_centroid relies on 'subtract'); each path is still checked against its own reference"},
